@@ -124,7 +124,14 @@ impl<'a, T> IterVectorsMut<'a, T> {
         vector_stride: NonZero<usize>,
         vector_length: NonZero<usize>,
     ) -> Self {
-        let lower = buffer;
+        // For zero-sized types the pointers are mere counters. Counting from
+        // `1` (instead of from the dangling address, i.e. the alignment)
+        // guarantees that `1 + (size - 1)` never overflows.
+        let lower = if size_of::<T>() == 0 {
+            unsafe { NonNull::new_unchecked(without_provenance_mut(1)) }
+        } else {
+            buffer
+        };
         let offset = axis_stride.get() * (axis_length.get() - 1);
         let upper = if size_of::<T>() == 0 {
             let addr = lower.addr().get() + offset;
